@@ -18,6 +18,15 @@ P = {
          'min, max, bins, aspect-ratio table are equal for symbolic history length and grids; diffusion state with recording on and off; untrained pass-through of all seven surrogate getters to the SAME backend method with the same arguments; '
          'every _fit* refits from the current data; _processSurrogateData(_collectSurrogateData()) restores every data dictionary and refits once per phase.',
          'np.savez/np.load/json round trip and RBF interpolation property assumed; P,E <= 2; trained-surrogate reproduction at training points undecided'),
+ 'C01': ('Postcondition of the real _calcMassBalance for the distribution it is given (P,E<=2, infinite and finite precipitate diffusion, symbolic grids): number density / mean radius / capped volume fraction are moments, '
+         'solute held in precipitates is volume x interfacial composition summed over the distribution, and x0 = x_matrix*(1-sum fv) + sum fconc or the documented clamp (NRA over opaque sums with automatic linearity); step-ordering contract '
+         '(balance applied to the NEW state, that row recorded); re-mesh / extension keep particle volume (C08 contracts).', 'regime sum fv < 1; positive molar volumes; history lift by induction (trusted principle)'),
+ 'C02': ('Statistics = moments (the _calcMassBalance contract), stored distribution = state with classes below one removed plus the two documented zeroings (_processX, _updateParticleSizeDistribution without re-mesh), '
+         'number balance of one Euler update through the real getdXdtEuler + correctdXdtEuler: N_new - N_old = dt*J + dt*(nf(0) - nf(bins)) <= J*dt (linear-sum lemma), per-phase wiring of _getdXdt/_correctdXdt.',
+         'RK4 uses the last stage rate (observation); re-mesh steps: volume fraction vs post-re-mesh distribution'),
+ 'C03': ('Alignment of all 16 histories per accepted step, ranges (0<=fv<=1, R>=0, N>=0, x>=0) from the mass-balance contract, populations 0 or >=1, solver time contract (C05), and the backend-fault paths: _growthRateMulti/_singleGrowthMulti executed with a backend that may return None at every call '
+         '(all fault sequences for P<=2): no exception, one-row slices, previous growth rate and last valid equilibrium compositions kept; phase-reset path sizes.',
+         'NaN/inf freedom, sum fv <= 1 and x <= 1 are undecided (listed); driving-force/impingement queries assumed to return values'),
  'C04': ('Obligations from the real source of the boundary-condition routine, DiffusionModel.getdXdt/postProcess/setup/flatten/unflatten, both _getFluxes and the '
          'real iterators + DESolver._updateX: boundary-face contract for every flux/composition mix, telescoping flux divergence (linear-sum lemma), '
          'per-step mesh-sum balance for Euler and RK4, fixed nodes, clip bounds, setup idempotence and configuration-op frames, for symbolic mesh size.', 'E <= 2 independent components'),
